@@ -28,7 +28,9 @@ def mon(s, obs):
 
 
 def failure_kinds(i, kinds, g):
-    if kinds[i] in ("cmd", "exp"):
+    if kinds[i] == "cmd":
+        return [["exit", 10 + i], ["signal", 9], ["launch"], ["mkdir"]]
+    if kinds[i] == "exp":
         return [["exit", 10 + i], ["signal", 9], ["launch"]]
     if kinds[i] == "combine" and any(kinds[j] in ("cmd", "exp", "combine") for j in g[i]):
         return [["conflict"]]
@@ -69,19 +71,23 @@ def items(tier):
     for g in ([[1, 2, 3, 4], [], [], [], []], [[1, 2, 3, 4, 5], [], [], [], [], []]):
         n = len(g)
         for failing in range(1, n):
-            for fk in (["launch"], ["exit", 3]):
+            for fk in (["launch"], ["exit", 3], ["mkdir"]):
                 for jobs in (2, 3):
                     for kinds in (["cmd"] * n, ["group"] + ["exp"] * (n - 1)):
+                        if fk == ["mkdir"] and kinds[failing] != "cmd":
+                            continue
                         out.append({"case": {"g": g, "kinds": kinds, "pars": [k != "group" for k in kinds], "jobs": jobs,
                                              "fails": {str(failing): fk}}, "bound": 0})
     # --stop-early with several tasks in flight and exits arriving in a batch (one is reaped but not yet processed)
     for g in ([[1, 2, 3], [], [], []], [[1, 2, 3, 4], [], [], [], []]):
         n = len(g)
         for failing in range(1, n):
-            for fk in (["exit", 3], ["signal", 9]):
+            for fk in (["exit", 3], ["signal", 9], ["launch"], ["mkdir"]):
                 for kinds in (["cmd"] * n, ["group"] + ["exp"] * (n - 1)):
+                    if fk == ["mkdir"] and kinds[failing] != "cmd":
+                        continue
                     out.append({"case": {"g": g, "kinds": kinds, "pars": [k != "group" for k in kinds], "jobs": n - 1,
-                                         "fails": {str(failing): fk}, "stop_early": True}, "bound": 1})
+                                         "fails": {str(failing): fk}, "stop_early": True}, "bound": 1 if fk[0] in ("exit", "signal") else 0})
     for case in rungrid.conformance_cases(tier, kindsets=(["cmd"] * 3, ["exp"] * 3, ["combine", "exp", "exp"])):
         out.append({"case": case, "bound": 0, "conform": True})
     return out
